@@ -59,7 +59,9 @@ namespace dh
     };
     struct A : Shape { XTL_IMPLEMENT_INDEXABLE_CLASS() };
     struct B : Shape { XTL_IMPLEMENT_INDEXABLE_CLASS() };
-    struct C : Shape { XTL_IMPLEMENT_INDEXABLE_CLASS() };
+    // (the dispatch base of C is not its first base: converting between Shape& and C& moves the address)
+    struct Named { virtual ~Named() = default; char name[24] = {0}; };
+    struct C : Named, Shape { XTL_IMPLEMENT_INDEXABLE_CLASS() };
     struct D : A { XTL_IMPLEMENT_INDEXABLE_CLASS() };     // derived from a concrete class: exact-type lookup and dynamic_cast chains differ
     struct Extra { int payload = 0; };
 
@@ -158,7 +160,8 @@ namespace
     using namespace dh;
     namespace mpl = xtl::mpl;
 
-    struct Call { int handler; std::vector<const void*> args; const void* extra; };
+    struct Call { int handler; std::vector<const void*> args; const void* extra; std::vector<const std::type_info*> statics; };
+    inline const std::type_info& type_info_of(int t) { switch (t) { case 0: return typeid(A); case 1: return typeid(B); case 2: return typeid(C); default: return typeid(D); } }
 
     // only the registration call itself runs with faults enabled
     struct Active
@@ -200,7 +203,15 @@ namespace
     {
         std::vector<Call>* log;
         int id;
-        template <class... T> RET operator()(T&... args) const { return record(args...); }
+        // a generic handler (callable with the base types as well): the static types it is called with are those it was
+        // registered for - the dispatcher casts before it calls
+        template <class... T> RET operator()(T&... args) const
+        {
+            size_t before = log->size();
+            RET r = record(args...);
+            if (log->size() == before + 1) log->back().statics = {&typeid(T)...};
+            return r;
+        }
         // the last argument is the undispatched extra
         RET record(Shape& a, Extra& e) const { log->push_back(Call{id, {&a}, &e}); return RetTraits<RET>::make(id); }
         RET record(Shape& a, Shape& b, Extra& e) const { log->push_back(Call{id, {&a, &b}, &e}); return RetTraits<RET>::make(id); }
@@ -324,6 +335,8 @@ namespace
                 for (size_t i = 0; i < N; ++i)
                     if (log[0].args[i] != static_cast<const void*>(o[i])) viol("arguments", "argument " + std::to_string(i) + " received by the handler is not the caller's object (wrong order or a copy)");
                 if (log[0].extra != &extra) viol("arguments", "the undispatched extra argument was not passed through unchanged");
+                for (size_t i = 0; i < N && i < log[0].statics.size(); ++i)
+                    if (*log[0].statics[i] != type_info_of(k[i])) viol("arguments", "argument " + std::to_string(i) + " reached the handler with static type " + log[0].statics[i]->name() + ", not cast to the registered type " + type_names[k[i]]);
                 SIM_PROBE("dispatch_to_registered_tuple");
                 if (N == 3) SIM_PROBE("three_argument_dispatch");
             }
